@@ -3,11 +3,14 @@
 //   0   every probe thread starts its (possibly blocking) operation
 //   80  releases of the 200 ms-timeout probes (counterpart operation / close)
 //   300 "still blocked" is sampled for the default-timeout probes, then they are released (counterpart / close)
-//   900 results are printed and the process exits (threads still blocked - possible only for a defective queue -
-//       are reported as ret=none, never waited for)
+//   end results are printed 300 ms after the last action (up to 4 s later while some probe has not returned) and the
+//       process exits; threads still blocked - possible only for a defective queue - are reported as ret=none.
+// Releasing actions are timed from the moment the probe thread really started.  A heartbeat thread reports the longest
+// stall of a 1 ms sleeper, so that the caller can tell a disturbed round (machine overloaded) from a slow queue.
 // Output: one line per probe:  name ret=<0|1|none> t=<ms from its start to its return> rel=<ms of the releasing
 // action, -1 if none> blocked=<sampled just before the release: 1 blocked, 0 already returned, -1 not sampled> extra...
 #include "queue.h"
+#include <algorithm>
 #include <atomic>
 #include <chrono>
 #include <cstdio>
@@ -38,12 +41,19 @@ static std::vector<Action> actions;
 static Probe* add(const std::string& name) { probes.emplace_back(new Probe); probes.back()->name = name; return probes.back().get(); }
 static void launch(Probe* p, std::function<bool()> op)
 {
-    std::thread([p, op] { p->t_start = now_ms(); bool r = op(); p->t_done = now_ms(); p->ret = r ? 1 : 0; }).detach();
+    std::thread([p, op] { p->t_start = std::max(now_ms(), 0.001); bool r = op(); p->t_done = now_ms(); p->ret = r ? 1 : 0; }).detach();
+}
+static void wait_started(Probe* p, double at)
+{   // the releasing action comes `at` ms after the probe thread really started (robust against a late thread start)
+    while (p->t_start.load() == 0 || now_ms() < p->t_start.load() + at) std::this_thread::sleep_for(milliseconds(1));
 }
 static void release_at(double at, Probe* p, std::function<void()> f)
 {
-    actions.push_back({at, [p, f] { p->blocked = (p->ret.load() == -1) ? 1 : 0; p->t_rel = now_ms(); f(); }});
+    actions.push_back({at, [p, f, at] { wait_started(p, at); p->blocked = (p->ret.load() == -1) ? 1 : 0; p->t_rel = now_ms(); f(); }});
 }
+// heartbeat: the longest time a 1 ms sleeper was not scheduled (a stall of the whole machine makes timing margins meaningless)
+static std::atomic<double> g_maxgap{0};
+static std::atomic<bool> g_stop{false};
 
 enum Tmo { D, T200, Z };
 static const char* tmo_name[] = {"default", "200ms", "zero"};
@@ -55,6 +65,8 @@ template <class QQ> static bool do_get(QQ& q, int& v, Tmo t)
 int main()
 {
     T0 = steady_clock::now();
+    std::thread([] { double last = now_ms(); while (!g_stop.load()) { std::this_thread::sleep_for(milliseconds(1)); double n = now_ms();
+        if (n - last > g_maxgap.load()) g_maxgap = n - last; last = n; } }).detach();
     std::vector<std::shared_ptr<Q1>> keep;
     // ---- A: put on a full queue / get on an empty queue x timeout x releasing action
     for (int kind = 0; kind < 2; ++kind)
@@ -79,6 +91,7 @@ int main()
         for (int i = 0; i < 3; ++i) { Probe* p = add("wake_all/get/" + std::to_string(i)); ps.push_back(p); launch(p, [qe] { int v; return qe->get(v); }); }
         for (int i = 0; i < 3; ++i) { Probe* p = add("wake_all/put/" + std::to_string(i)); ps.push_back(p); launch(p, [qf, i] { return qf->put(10 + i); }); }
         actions.push_back({300, [ps, qe, qf] {
+            for (Probe* p : ps) wait_started(p, 300);
             for (Probe* p : ps) { p->blocked = (p->ret.load() == -1) ? 1 : 0; }
             double t = now_ms(); qe->close(); qf->close(); for (Probe* p : ps) p->t_rel = t; }});
     }
@@ -105,9 +118,14 @@ int main()
         });
     }
     // ---- time line
-    std::sort(actions.begin(), actions.end(), [](const Action& a, const Action& b) { return a.at < b.at; });
+    std::stable_sort(actions.begin(), actions.end(), [](const Action& a, const Action& b) { return a.at < b.at; });
     for (auto& a : actions) { while (now_ms() < a.at) std::this_thread::sleep_for(milliseconds(1)); a.f(); }
-    while (now_ms() < 900) std::this_thread::sleep_for(milliseconds(5));
+    // end: 300 ms after the last action, extended (up to 4 s) while some probe has not returned yet
+    double end = now_ms() + 300;
+    auto all_done = [] { for (auto& p : probes) if (p->ret.load() == -1) return false; return true; };
+    while (now_ms() < end || (!all_done() && now_ms() < end + 4000)) std::this_thread::sleep_for(milliseconds(5));
+    g_stop = true;
+    std::printf("#heartbeat maxgap_ms=%.1f total_ms=%.1f\n", g_maxgap.load(), now_ms());
     for (auto& p : probes) {
         int r = p->ret.load();
         double td = p->t_done.load(), ts = p->t_start.load(), tr = p->t_rel.load();
